@@ -3,7 +3,7 @@
 package yubiagent
 
 // Conformance harness for spec/AgentWire.tla, part 1 (property C12): the real ServeAgent as a consumer of byte
-// streams.  The harness only drives and observes: it instantiates abstract items (exported by TLC, or drawn from a
+// streams.  The harness zvwOnly drives and observes: it instantiates abstract items (exported by TLC, or drawn from a
 // seeded grammar) with concrete bytes, feeds them to ServeAgent serving a real *server (remote mode) whose
 // ShimAgent is a real shimagent.Server over a real x/crypto keyring (behind verifh.Proxy on a unix socket), parses
 // the response bytes with its own framer, attributes every response to the item the server had consumed when it
@@ -39,7 +39,7 @@ import (
 // ---------------------------------------------------------------------------------------------
 // plan and records
 
-type wIt struct {
+type zvwWIt struct {
 	K    string `json:"k"`
 	Code int    `json:"code"`
 	Len  string `json:"len"`
@@ -47,73 +47,73 @@ type wIt struct {
 	Aux  string `json:"aux"`
 }
 
-// wCItem is an item with its concrete bytes.
-type wCItem struct {
-	It  wIt    `json:"it"`
-	Var string `json:"var"` // concrete variant (diagnostics and violation keys only)
+// zvwWCItem is an item with its concrete bytes.
+type zvwWCItem struct {
+	It  zvwWIt    `json:"it"`
+	Var string `json:"var"` // concrete variant (diagnostics and violation keys zvwOnly)
 	Det string `json:"det"` // further detail (lengths)
 	Hex string `json:"hex"`
 	b   []byte
 	base int // add requests: length of the part before the constraint bytes
 }
 
-type wReplay struct {
-	Items []wCItem `json:"items"`
+type zvwWReplay struct {
+	Items []zvwWCItem `json:"items"`
 	Conn  string   `json:"conn"`
 }
 
-type wPlan struct {
-	Streams [][]wIt          `json:"streams"` // abstract streams exported by TLC
+type zvwWPlan struct {
+	Streams [][]zvwWIt          `json:"streams"` // abstract streams exported by TLC
 	Groups  map[string][]int `json:"groups"`  // dispatch group -> all codes of the group (from TLC)
 	GroupOf map[string]string `json:"group_of"`
 	Sweep   bool             `json:"sweep"`   // every code 0..255 in every frame shape
 	Random  int              `json:"random"`  // number of random / grammar-derived streams
 	MaxLen  int              `json:"maxlen"`
 	PipeEvery int            `json:"pipe_every"` // every n-th stream runs over a net.Pipe instead of the in-memory connection
-	Replays []wReplay        `json:"replays"`
+	Replays []zvwWReplay        `json:"replays"`
 	Workers int              `json:"workers"`
 }
 
-type wSt struct {
+type zvwWSt struct {
 	Pos int    `json:"pos"`
 	St  string `json:"st"`
 	Out []int  `json:"out"`
 }
 
-type wLabel struct {
+type zvwWLabel struct {
 	I    int  `json:"i"`
-	It   wIt  `json:"it"`
+	It   zvwWIt  `json:"it"`
 	Nrep int  `json:"nrep"`
 	Rel  bool `json:"rel"`
 	Pan  bool `json:"pan"`
 	Big  bool `json:"big"`
 }
 
-type wRec struct {
+type zvwWRec struct {
 	Ev   string      `json:"ev"`
 	Fam  string      `json:"fam"`
 	Tid  string      `json:"tid"`
-	Pre  *wSt        `json:"pre,omitempty"`
-	E    *wLabel     `json:"e,omitempty"`
-	Post wSt         `json:"post"`
+	Pre  *zvwWSt        `json:"pre,omitempty"`
+	E    *zvwWLabel     `json:"e,omitempty"`
+	Post zvwWSt         `json:"post"`
 	Info interface{} `json:"info,omitempty"`
 }
 
 // ---------------------------------------------------------------------------------------------
 // the connection handed to ServeAgent: records when the server asks for input and what it writes
 
-type wEvent struct {
+type zvwWEvent struct {
 	kind byte // 'r' = Read entered, 'w' = bytes written, 'x' = the harness releases a pending wait
 	off  int  // input bytes consumed so far
 	data []byte
 }
 
-type wConn struct {
+type zvwWConn struct {
 	mu   sync.Mutex
 	in   []byte   // in-memory mode: the whole stream
 	pipe net.Conn // pipe mode: the server's end of a net.Pipe
 	off  int
-	log  []wEvent
+	log  []zvwWEvent
 	sig  chan struct{}
 	// allocation measurement: TotalAlloc is sampled when the server asks for the first byte of the (first)
 	// oversize item and again when ServeAgent returns
@@ -121,7 +121,7 @@ type wConn struct {
 	m0      *runtime.MemStats
 }
 
-func (c *wConn) note(e wEvent) {
+func (c *zvwWConn) note(e zvwWEvent) {
 	c.mu.Lock()
 	e.off = c.off
 	c.log = append(c.log, e)
@@ -132,8 +132,8 @@ func (c *wConn) note(e wEvent) {
 	}
 }
 
-func (c *wConn) Read(p []byte) (int, error) {
-	c.note(wEvent{kind: 'r'})
+func (c *zvwWConn) Read(p []byte) (int, error) {
+	c.note(zvwWEvent{kind: 'r'})
 	if c.markOff >= 0 && c.m0 == nil && c.consumed() == c.markOff {
 		c.m0 = &runtime.MemStats{}
 		runtime.ReadMemStats(c.m0)
@@ -155,21 +155,21 @@ func (c *wConn) Read(p []byte) (int, error) {
 	return n, nil
 }
 
-func (c *wConn) Write(p []byte) (int, error) {
-	c.note(wEvent{kind: 'w', data: append([]byte{}, p...)})
+func (c *zvwWConn) Write(p []byte) (int, error) {
+	c.note(zvwWEvent{kind: 'w', data: append([]byte{}, p...)})
 	if c.pipe != nil && len(p) > 0 { // (a zero-length write on a net.Pipe would block until the peer reads)
 		return c.pipe.Write(p)
 	}
 	return len(p), nil
 }
 
-func (c *wConn) consumed() int {
+func (c *zvwWConn) consumed() int {
 	c.mu.Lock()
 	defer c.mu.Unlock()
 	return c.off
 }
 
-func (c *wConn) lastReadAt() int {
+func (c *zvwWConn) lastReadAt() int {
 	c.mu.Lock()
 	defer c.mu.Unlock()
 	for i := len(c.log) - 1; i >= 0; i-- {
@@ -183,21 +183,21 @@ func (c *wConn) lastReadAt() int {
 // ---------------------------------------------------------------------------------------------
 // environment: a real *server over a real shim over a real keyring
 
-var wCA = verifh.GenKey("wire-ca", "ed25519")
+var zvwWCA = verifh.GenKey("wire-ca", "ed25519")
 
-var wHeldCertOnce sync.Once
-var wHeldCertV *ssh.Certificate
+var zvwWHeldCertOnce sync.Once
+var zvwWHeldCertV *ssh.Certificate
 
-// wHeldCert is a certificate for the first key every environment holds.
-func wHeldCert() *ssh.Certificate {
-	wHeldCertOnce.Do(func() {
-		wHeldCertV = verifh.Mint(wCA.Signer, verifh.CertSpec{Key: verifh.PoolKey(0, "ed25519").Pub, KeyID: "wire-cert", ValidAfter: 0,
+// zvwWHeldCert is a certificate for the first key every environment holds.
+func zvwWHeldCert() *ssh.Certificate {
+	zvwWHeldCertOnce.Do(func() {
+		zvwWHeldCertV = verifh.Mint(zvwWCA.Signer, verifh.CertSpec{Key: verifh.PoolKey(0, "ed25519").Pub, KeyID: "wire-cert", ValidAfter: 0,
 			ValidBefore: uint64(time.Now().Unix() + 86400), Principals: []string{"u"}, Serial: 7})
 	})
-	return wHeldCertV
+	return zvwWHeldCertV
 }
 
-type wEnv struct {
+type zvwWEnv struct {
 	dir    string
 	kr     agent.Agent
 	px     *verifh.Proxy
@@ -212,15 +212,15 @@ type wEnv struct {
 	n      int
 }
 
-var wSockSeq int
-var wSockMu sync.Mutex
+var zvwWSockSeq int
+var zvwWSockMu sync.Mutex
 
-func newWEnv(base string, rnd *mrand.Rand, remote bool, tool string) *wEnv {
-	e := &wEnv{rnd: rnd, poison: map[string]bool{}}
-	wSockMu.Lock()
-	wSockSeq++
-	sock := filepath.Join(base, fmt.Sprintf("a%d.sock", wSockSeq))
-	wSockMu.Unlock()
+func zvwNewWEnv(base string, rnd *mrand.Rand, remote bool, tool string) *zvwWEnv {
+	e := &zvwWEnv{rnd: rnd, poison: map[string]bool{}}
+	zvwWSockMu.Lock()
+	zvwWSockSeq++
+	sock := filepath.Join(base, fmt.Sprintf("a%d.sock", zvwWSockSeq))
+	zvwWSockMu.Unlock()
 	e.dir = sock
 	e.kr = agent.NewKeyring()
 	e.held = []*verifh.KeyPair{verifh.PoolKey(0, "ed25519"), verifh.PoolKey(1, "ecdsa256")}
@@ -229,7 +229,7 @@ func newWEnv(base string, rnd *mrand.Rand, remote bool, tool string) *wEnv {
 			panic(err)
 		}
 	}
-	e.cert = wHeldCert()
+	e.cert = zvwWHeldCert()
 	ln, err := net.Listen("unix", sock)
 	if err != nil {
 		panic(err)
@@ -262,22 +262,37 @@ func newWEnv(base string, rnd *mrand.Rand, remote bool, tool string) *wEnv {
 	return e
 }
 
-func (e *wEnv) close() {
+func (e *zvwWEnv) close() {
 	e.ln.Close()
 	e.px.Close()
 	os.Remove(e.dir)
 }
 
-// waiters returns the number of goroutines parked in shimagent.Server.Wait(w).
-func (e *wEnv) waiters() int {
+// waiters returns the number of goroutines parked in shimagent.Server.Wait(w), or -1 when the implementation does
+// not keep them where this observer can count them (then zvwRunStream falls back to "no progress for a while").
+func (e *zvwWEnv) waiters() (n int) {
+	defer func() {
+		if recover() != nil {
+			n = -1
+		}
+	}()
 	s, ok := e.shim.(*shimagent.Server)
 	if !ok {
-		return 0
+		return -1
 	}
 	conds := reflect.ValueOf(s).Elem().FieldByName("conds")
-	n := 0
+	if !conds.IsValid() || (conds.Kind() != reflect.Array && conds.Kind() != reflect.Slice) {
+		return -1
+	}
 	for i := 0; i < conds.Len(); i++ {
-		nl := conds.Index(i).Elem().FieldByName("notify")
+		c := conds.Index(i)
+		if c.Kind() != reflect.Ptr || c.IsNil() {
+			return -1
+		}
+		nl := c.Elem().FieldByName("notify")
+		if !nl.IsValid() || !nl.FieldByName("wait").IsValid() || !nl.FieldByName("notify").IsValid() {
+			return -1
+		}
 		n += int(uint32(nl.FieldByName("wait").Uint()) - uint32(nl.FieldByName("notify").Uint()))
 	}
 	return n
@@ -286,7 +301,7 @@ func (e *wEnv) waiters() int {
 // ---------------------------------------------------------------------------------------------
 // concrete instantiation of abstract items
 
-func wFrame(body []byte) []byte {
+func zvwWFrame(body []byte) []byte {
 	b := make([]byte, 4+len(body))
 	binary.BigEndian.PutUint32(b, uint32(len(body)))
 	copy(b[4:], body)
@@ -294,24 +309,24 @@ func wFrame(body []byte) []byte {
 }
 
 // capture returns the request the x/crypto client writes for a call.
-type wCapture struct {
+type zvwWCapture struct {
 	req   []byte
 	reply []byte
 	rd    *bytes.Reader
 }
 
-func (c *wCapture) Write(p []byte) (int, error) {
+func (c *zvwWCapture) Write(p []byte) (int, error) {
 	c.req = append(c.req, p...)
 	return len(p), nil
 }
-func (c *wCapture) Read(p []byte) (int, error) {
+func (c *zvwWCapture) Read(p []byte) (int, error) {
 	if c.rd == nil {
-		c.rd = bytes.NewReader(wFrame(c.reply))
+		c.rd = bytes.NewReader(zvwWFrame(c.reply))
 	}
 	return c.rd.Read(p)
 }
-func wCaptureReq(f func(a agent.ExtendedAgent)) []byte {
-	c := &wCapture{reply: []byte{5}}
+func zvwWCaptureReq(f func(a agent.ExtendedAgent)) []byte {
+	c := &zvwWCapture{reply: []byte{5}}
 	f(agent.NewClient(c))
 	if len(c.req) < 5 {
 		panic("verif: nothing captured")
@@ -319,25 +334,25 @@ func wCaptureReq(f func(a agent.ExtendedAgent)) []byte {
 	return c.req[4:]
 }
 
-func rndBytes(r *mrand.Rand, n int) []byte {
+func zvwRndBytes(r *mrand.Rand, n int) []byte {
 	b := make([]byte, n)
 	r.Read(b)
 	return b
 }
 
-var wUTF8 = []string{"", "plain", "héllo wörld", "日本語のコメント", "emoji \U0001F511 key", "quote\"back\\slash", "nul\x00byte", "line\nbreak", "\xff\xfe not utf8"}
+var zvwWUTF8 = []string{"", "plain", "héllo wörld", "日本語のコメント", "emoji \U0001F511 key", "quote\"back\\slash", "nul\x00byte", "line\nbreak", "\xff\xfe not utf8"}
 
-func rndComment(r *mrand.Rand) string {
-	s := wUTF8[r.Intn(len(wUTF8))]
+func zvwRndComment(r *mrand.Rand) string {
+	s := zvwWUTF8[r.Intn(len(zvwWUTF8))]
 	if r.Intn(3) == 0 {
-		s += string(rndBytes(r, r.Intn(40)))
+		s += string(zvwRndBytes(r, r.Intn(40)))
 	}
 	return s
 }
 
-// truncLifetime reports whether constraint bytes make x/crypto v0.35.0 parseConstraints slice beyond the buffer:
+// zvwTruncLifetime reports whether constraint bytes make x/crypto v0.35.0 parseConstraints slice beyond the buffer:
 // a lifetime constraint (type 1) with fewer than four bytes behind it, reached after well-formed constraints.
-func truncLifetime(c []byte) bool {
+func zvwTruncLifetime(c []byte) bool {
 	for len(c) > 0 {
 		switch c[0] {
 		case 1:
@@ -354,8 +369,8 @@ func truncLifetime(c []byte) bool {
 	return false
 }
 
-// xcryptoPanics: does the pinned x/crypto agent server itself panic on this request (served on a scratch keyring)?
-func xcryptoPanics(body []byte) (pan bool) {
+// zvwXcryptoPanics: does the pinned x/crypto agent server itself panic on this request (served on a scratch keyring)?
+func zvwXcryptoPanics(body []byte) (pan bool) {
 	defer func() {
 		if recover() != nil {
 			pan = true
@@ -365,19 +380,19 @@ func xcryptoPanics(body []byte) (pan bool) {
 	_ = agent.ServeAgent(agent.NewKeyring(), struct {
 		io.Reader
 		io.Writer
-	}{bytes.NewReader(wFrame(body)), &out})
+	}{bytes.NewReader(zvwWFrame(body)), &out})
 	return false
 }
 
-type wGen struct {
-	env    *wEnv
+type zvwWGen struct {
+	env    *zvwWEnv
 	r      *mrand.Rand
 	groups map[string][]int
 	small  bool // keep every body small (streams whose allocation is measured)
 	rot    map[string]int
 }
 
-func (g *wGen) size(max int) int {
+func (g *zvwWGen) size(max int) int {
 	if g.small && max > 2048 {
 		max = 2048
 	}
@@ -396,12 +411,12 @@ func (g *wGen) size(max int) int {
 	}
 }
 
-func (g *wGen) freshKey() *verifh.KeyPair {
+func (g *zvwWGen) freshKey() *verifh.KeyPair {
 	kinds := []string{"ed25519", "ecdsa256", "ecdsa384", "ecdsa521", "rsa2048"}
 	return verifh.PoolKey(10+g.r.Intn(3), kinds[g.r.Intn(len(kinds))])
 }
 
-func (g *wGen) anyPub() (ssh.PublicKey, string) {
+func (g *zvwWGen) anyPub() (ssh.PublicKey, string) {
 	switch g.r.Intn(4) {
 	case 0:
 		return g.env.held[g.r.Intn(len(g.env.held))].Pub, "held"
@@ -409,7 +424,7 @@ func (g *wGen) anyPub() (ssh.PublicKey, string) {
 		return g.env.cert, "heldcert"
 	case 2:
 		k := g.freshKey()
-		return verifh.Mint(wCA.Signer, verifh.CertSpec{Key: k.Pub, KeyID: rndComment(g.r), ValidBefore: uint64(time.Now().Unix() + 3600)}), "unheldcert"
+		return verifh.Mint(zvwWCA.Signer, verifh.CertSpec{Key: k.Pub, KeyID: zvwRndComment(g.r), ValidBefore: uint64(time.Now().Unix() + 3600)}), "unheldcert"
 	default:
 		return g.freshKey().Pub, "unheld"
 	}
@@ -417,68 +432,68 @@ func (g *wGen) anyPub() (ssh.PublicKey, string) {
 
 // validStd builds a well-formed request of a standard code with arguments.  base is the length of the part
 // before the constraint bytes for add requests (0 otherwise).
-func (g *wGen) validStd(code int) (body []byte, v string, base int) {
+func (g *zvwWGen) validStd(code int) (body []byte, v string, base int) {
 	r := g.r
 	switch code {
 	case 13:
 		k, kv := g.anyPub()
-		data := rndBytes(r, g.size(65536))
+		data := zvwRndBytes(r, g.size(65536))
 		fl := []agent.SignatureFlags{0, 2, 4, 0}[r.Intn(4)]
-		return wCaptureReq(func(a agent.ExtendedAgent) { a.SignWithFlags(k, data, fl) }), fmt.Sprintf("sign-%s-d%d-f%d", kv, len(data), fl), 0
+		return zvwWCaptureReq(func(a agent.ExtendedAgent) { a.SignWithFlags(k, data, fl) }), fmt.Sprintf("sign-%s-d%d-f%d", kv, len(data), fl), 0
 	case 17, 25:
 		k := g.freshKey()
-		ak := agent.AddedKey{PrivateKey: k.Priv, Comment: rndComment(r)}
+		ak := agent.AddedKey{PrivateKey: k.Priv, Comment: zvwRndComment(r)}
 		v = "add-" + k.Kind
 		if r.Intn(3) == 0 {
-			ak.Certificate = verifh.Mint(wCA.Signer, verifh.CertSpec{Key: k.Pub, KeyID: "w", ValidBefore: uint64(time.Now().Unix() + 3600)})
+			ak.Certificate = verifh.Mint(zvwWCA.Signer, verifh.CertSpec{Key: k.Pub, KeyID: "w", ValidBefore: uint64(time.Now().Unix() + 3600)})
 			v += "-cert"
 		}
-		plain := wCaptureReq(func(a agent.ExtendedAgent) { a.Add(ak) })
+		plain := zvwWCaptureReq(func(a agent.ExtendedAgent) { a.Add(ak) })
 		if code == 25 {
 			ak.LifetimeSecs = uint32(1 + r.Intn(100000))
 			ak.ConfirmBeforeUse = r.Intn(2) == 0
 			v += fmt.Sprintf("-lt%d-cf%v", ak.LifetimeSecs, ak.ConfirmBeforeUse)
-			return wCaptureReq(func(a agent.ExtendedAgent) { a.Add(ak) }), v, len(plain)
+			return zvwWCaptureReq(func(a agent.ExtendedAgent) { a.Add(ak) }), v, len(plain)
 		}
 		return plain, v, len(plain)
 	case 18:
 		k, kv := g.anyPub()
-		return wCaptureReq(func(a agent.ExtendedAgent) { a.Remove(k) }), "remove-" + kv, 0
+		return zvwWCaptureReq(func(a agent.ExtendedAgent) { a.Remove(k) }), "remove-" + kv, 0
 	case 22:
-		p := rndBytes(r, g.size(100))
-		return wCaptureReq(func(a agent.ExtendedAgent) { a.Lock(p) }), fmt.Sprintf("lock-p%d", len(p)), 0
+		p := zvwRndBytes(r, g.size(100))
+		return zvwWCaptureReq(func(a agent.ExtendedAgent) { a.Lock(p) }), fmt.Sprintf("lock-p%d", len(p)), 0
 	case 23:
-		p := rndBytes(r, g.size(100))
-		return wCaptureReq(func(a agent.ExtendedAgent) { a.Unlock(p) }), fmt.Sprintf("unlock-p%d", len(p)), 0
+		p := zvwRndBytes(r, g.size(100))
+		return zvwWCaptureReq(func(a agent.ExtendedAgent) { a.Unlock(p) }), fmt.Sprintf("unlock-p%d", len(p)), 0
 	}
 	panic(fmt.Sprintf("verif: no valid body for code %d", code))
 }
 
-func (g *wGen) validAHC(enc string) ([]byte, string) {
+func (g *zvwWGen) validAHC(enc string) ([]byte, string) {
 	k, kv := g.anyPub()
 	if enc == "legacy" {
 		return append([]byte{31}, k.Marshal()...), "legacy-" + kv
 	}
-	return ssh.Marshal(agentAddHardCertReq{KeyBlob: k.Marshal(), Comment: rndComment(g.r)}), "struct-" + kv
+	return ssh.Marshal(agentAddHardCertReq{KeyBlob: k.Marshal(), Comment: zvwRndComment(g.r)}), "struct-" + kv
 }
 
-var wSlots = []string{"9a", "9c", "9d", "9e", "f9", "82", "95", "zz", "9", "9ab", "ü", "a b"}
+var zvwWSlots = []string{"9a", "9c", "9d", "9e", "f9", "82", "95", "zz", "9", "9ab", "ü", "a b"}
 
 // invalidStd: structurally broken request of a standard code with arguments.
-func (g *wGen) invalidStd(code int) ([]byte, string) {
+func (g *zvwWGen) invalidStd(code int) ([]byte, string) {
 	r := g.r
 	if code == 17 || code == 25 {
 		switch r.Intn(4) {
 		case 0: // a truncated lifetime constraint behind a well-formed key
 			k := g.freshKey()
-			plain := wCaptureReq(func(a agent.ExtendedAgent) { a.Add(agent.AddedKey{PrivateKey: k.Priv, Comment: "c"}) })
+			plain := zvwWCaptureReq(func(a agent.ExtendedAgent) { a.Add(agent.AddedKey{PrivateKey: k.Priv, Comment: "c"}) })
 			plain[0] = byte(code)
 			pre := [][]byte{{}, {2}, {1, 0, 0, 0, 9}, {1, 0, 0, 1, 0, 2}}[r.Intn(4)]
 			tail := [][]byte{{1}, {1, 0}, {1, 0, 0}, {1, 0, 0, 0}}[r.Intn(4)]
 			return append(append(plain, pre...), tail...), "lifetime-trunc"
 		case 1: // unknown constraint type
 			k := g.freshKey()
-			plain := wCaptureReq(func(a agent.ExtendedAgent) { a.Add(agent.AddedKey{PrivateKey: k.Priv, Comment: "c"}) })
+			plain := zvwWCaptureReq(func(a agent.ExtendedAgent) { a.Add(agent.AddedKey{PrivateKey: k.Priv, Comment: "c"}) })
 			plain[0] = byte(code)
 			return append(plain, byte(9+r.Intn(200)), 1, 2), "constraint-unknown"
 		case 2: // unknown key type
@@ -496,9 +511,9 @@ func (g *wGen) invalidStd(code int) ([]byte, string) {
 }
 
 // concrete instantiates an abstract item.
-func (g *wGen) concrete(it wIt) wCItem {
+func (g *zvwWGen) concrete(it zvwWIt) zvwWCItem {
 	r := g.r
-	ci := wCItem{It: it}
+	ci := zvwWCItem{It: it}
 	switch it.K {
 	case "eof":
 		ci.b, ci.Var = nil, "eof"
@@ -519,7 +534,7 @@ func (g *wGen) concrete(it wIt) wCItem {
 		}
 		b := make([]byte, 4)
 		binary.BigEndian.PutUint32(b, uint32(decl))
-		ci.b, ci.Var, ci.Det = append(b, rndBytes(r, have)...), "partial", fmt.Sprintf("declared %d, %d present", decl, have)
+		ci.b, ci.Var, ci.Det = append(b, zvwRndBytes(r, have)...), "partial", fmt.Sprintf("declared %d, %d present", decl, have)
 		if have == 0 {
 			ci.Var = "have0"
 		}
@@ -528,7 +543,7 @@ func (g *wGen) concrete(it wIt) wCItem {
 		l := ls[r.Intn(len(ls))]
 		b := make([]byte, 4)
 		binary.BigEndian.PutUint32(b, l)
-		ci.b, ci.Var, ci.Det = append(b, rndBytes(r, r.Intn(17))...), "oversize", fmt.Sprintf("declared %d", l)
+		ci.b, ci.Var, ci.Det = append(b, zvwRndBytes(r, r.Intn(17))...), "oversize", fmt.Sprintf("declared %d", l)
 	case "frame":
 		var body []byte
 		c := it.Code
@@ -550,7 +565,7 @@ func (g *wGen) concrete(it wIt) wCItem {
 				body = append(body, 0)
 			}
 		case (c == 33 || c == 34) && it.Body == "valid":
-			s := wSlots[r.Intn(len(wSlots))]
+			s := zvwWSlots[r.Intn(len(zvwWSlots))]
 			body, ci.Var = append([]byte{byte(c)}, s...), "slot-"+s
 		case c == 35 && it.Body == "valid":
 			w := 40 + r.Intn(216)
@@ -560,18 +575,18 @@ func (g *wGen) concrete(it wIt) wCItem {
 			body, ci.Var = []byte{35, byte(w)}, fmt.Sprintf("wait-%d", w)
 		case c == 35: // unknown body: waited code of the immediate class plus trailing bytes
 			w := 40 + r.Intn(216)
-			body, ci.Var = append([]byte{35, byte(w)}, rndBytes(r, 1+r.Intn(20))...), fmt.Sprintf("wait-%d-extra", w)
+			body, ci.Var = append([]byte{35, byte(w)}, zvwRndBytes(r, 1+r.Intn(20))...), fmt.Sprintf("wait-%d-extra", w)
 		case it.Aux == "ufail":
-			body = append([]byte{byte(c)}, rndBytes(r, 12)...)
+			body = append([]byte{byte(c)}, zvwRndBytes(r, 12)...)
 			g.env.pmu.Lock()
 			g.env.poison[string(body)] = true
 			g.env.pmu.Unlock()
 			ci.Var = "underlying-closes"
 		default: // unknown body
-			body, ci.Var = append([]byte{byte(c)}, rndBytes(r, 1+g.size(65536))...), "random"
+			body, ci.Var = append([]byte{byte(c)}, zvwRndBytes(r, 1+g.size(65536))...), "random"
 		}
-		ci.b = wFrame(body)
-		if (c == 17 || c == 25) && it.Len == "n" && ci.Var != "lifetime-trunc" && it.Body != "valid" && xcryptoPanics(body) {
+		ci.b = zvwWFrame(body)
+		if (c == 17 || c == 25) && it.Len == "n" && ci.Var != "lifetime-trunc" && it.Body != "valid" && zvwXcryptoPanics(body) {
 			ci.Var = "xcrypto-panic-other"
 		}
 	default:
@@ -583,7 +598,7 @@ func (g *wGen) concrete(it wIt) wCItem {
 
 // pick maps the code of an abstract item to a concrete code of the same dispatch group: every other time the
 // model's own code, otherwise round robin over the whole group.
-func (g *wGen) pick(it wIt, groupOf map[string]string) wIt {
+func (g *zvwWGen) pick(it zvwWIt, groupOf map[string]string) zvwWIt {
 	if it.K != "frame" || it.Code < 0 {
 		return it
 	}
@@ -603,9 +618,9 @@ func (g *wGen) pick(it wIt, groupOf map[string]string) wIt {
 // ---------------------------------------------------------------------------------------------
 // running one stream
 
-type wResult struct {
-	steps   []wLabel
-	posts   []wSt
+type zvwWResult struct {
+	steps   []zvwWLabel
+	posts   []zvwWSt
 	retErr  error
 	pan     interface{}
 	hung    bool
@@ -613,7 +628,7 @@ type wResult struct {
 	replies [][]byte
 }
 
-func (e *wEnv) poisoned(items []wCItem) bool {
+func (e *zvwWEnv) poisoned(items []zvwWCItem) bool {
 	for _, it := range items {
 		if it.It.Aux == "ufail" {
 			return true
@@ -622,8 +637,8 @@ func (e *wEnv) poisoned(items []wCItem) bool {
 	return false
 }
 
-// runStream feeds the items to ServeAgent and returns one step per item the server entered.
-func runStream(e *wEnv, items []wCItem, mode string, measure bool) wResult {
+// zvwRunStream feeds the items to ServeAgent and returns one step per item the server entered.
+func zvwRunStream(e *zvwWEnv, items []zvwWCItem, mode string, measure bool) zvwWResult {
 	var in []byte
 	starts := make([]int, len(items))
 	for i, it := range items {
@@ -631,7 +646,7 @@ func runStream(e *wEnv, items []wCItem, mode string, measure bool) wResult {
 		in = append(in, it.b...)
 	}
 	total := len(in)
-	c := &wConn{sig: make(chan struct{}, 1), markOff: -1}
+	c := &zvwWConn{sig: make(chan struct{}, 1), markOff: -1}
 	if measure {
 		for i, it := range items {
 			if it.It.K == "oversize" {
@@ -689,12 +704,14 @@ func runStream(e *wEnv, items []wCItem, mode string, measure bool) wResult {
 		}()
 		r.err = ServeAgent(e.srv, c)
 	}()
-	res := wResult{}
+	res := zvwWResult{}
 	var r ret
 	deadline := time.After(30 * time.Second)
 	tick := time.NewTicker(200 * time.Microsecond)
 	defer tick.Stop()
 	closed := false
+	lastLog, lastChange := 0, time.Now()
+	released := map[int]int{}
 loop:
 	for {
 		select {
@@ -711,28 +728,40 @@ loop:
 			closed = true
 			hside.Close()
 		}
-		if e.waiters() > 0 {
-			// the server is parked in Wait(w): a request with code w arrives on another connection
+		// a pending wait: the server is parked in Wait(w).  Observed by the parked-waiter count; when the implementation
+		// does not expose one, by "the last item consumed is a wait for a code < 40, it is consumed completely and
+		// nothing has happened on the connection for 40 ms".
+		c.mu.Lock()
+		off, nlog := c.off, len(c.log)
+		c.mu.Unlock()
+		if nlog != lastLog {
+			lastLog, lastChange = nlog, time.Now()
+		}
+		wi := -1
+		for i := len(items) - 1; i >= 0; i-- {
+			if starts[i] < off {
+				wi = i
+				break
+			}
+		}
+		isWait := wi >= 0 && items[wi].It.K == "frame" && len(items[wi].b) >= 6 && items[wi].b[4] == 35 && items[wi].b[5] < 40 &&
+			off >= starts[wi]+len(items[wi].b)
+		nw := e.waiters()
+		parked := nw > 0 || (nw < 0 && isWait && time.Since(lastChange) > 40*time.Millisecond)
+		if parked && isWait {
+			if released[wi] == 0 {
+				c.note(zvwWEvent{kind: 'x'})
+			}
+			released[wi]++
 			c.mu.Lock()
-			off := c.off
+			lastLog, lastChange = len(c.log), time.Now()
 			c.mu.Unlock()
-			w := -1
-			for i := len(items) - 1; i >= 0; i-- {
-				if starts[i] < off {
-					if len(items[i].b) >= 6 {
-						w = int(items[i].b[5])
-					}
-					break
-				}
-			}
-			c.note(wEvent{kind: 'x'})
-			if w >= 0 {
-				other := &wConn{in: wFrame([]byte{byte(w), 40}), sig: make(chan struct{}, 1), markOff: -1}
-				func() {
-					defer func() { recover() }()
-					_ = ServeAgent(e.srv, other)
-				}()
-			}
+			// a request with code w arrives on another connection of the same server
+			other := &zvwWConn{in: zvwWFrame([]byte{items[wi].b[5], 40}), sig: make(chan struct{}, 1), markOff: -1}
+			func() {
+				defer func() { recover() }()
+				_ = ServeAgent(e.srv, other)
+			}()
 			for k := 0; k < 2000 && e.waiters() > 0; k++ {
 				time.Sleep(50 * time.Microsecond)
 			}
@@ -860,11 +889,11 @@ loop:
 	if need > 0 || len(wbuf) > 0 {
 		// an incomplete response frame was written: it was counted when its first byte appeared
 	}
-	st := wSt{Pos: 1, St: "running", Out: []int{}}
+	st := zvwWSt{Pos: 1, St: "running", Out: []int{}}
 	for si, sg := range segs {
 		i := itemOf[si]
-		lab := wLabel{I: i + 1, It: items[i].It, Nrep: sg.nrep, Rel: sg.rel}
-		post := wSt{Pos: st.Pos, Out: append([]int{}, st.Out...)}
+		lab := zvwWLabel{I: i + 1, It: items[i].It, Nrep: sg.nrep, Rel: sg.rel}
+		post := zvwWSt{Pos: st.Pos, Out: append([]int{}, st.Out...)}
 		if !sg.rel {
 			post.Pos = st.Pos + 1
 		}
@@ -895,7 +924,7 @@ loop:
 // ---------------------------------------------------------------------------------------------
 // stream sources
 
-func respKind(b []byte) string {
+func zvwRespKind(b []byte) string {
 	switch {
 	case len(b) == 0:
 		return "empty"
@@ -915,16 +944,16 @@ func respKind(b []byte) string {
 	return "other"
 }
 
-type wJob struct {
+type zvwWJob struct {
 	tid   string
-	items []wIt    // abstract (to be instantiated by the worker) ...
-	conc  []wCItem // ... or concrete (replay, sweep)
+	items []zvwWIt    // abstract (to be instantiated by the worker) ...
+	conc  []zvwWCItem // ... or concrete (replay, sweep)
 	mode  string
 	dirB  bool
 	over  bool // contains an oversize item: runs alone, allocation measured
 }
 
-func containsKind(items []wIt, k string) bool {
+func zvwContainsKind(items []zvwWIt, k string) bool {
 	for _, it := range items {
 		if it.K == k {
 			return true
@@ -933,7 +962,7 @@ func containsKind(items []wIt, k string) bool {
 	return false
 }
 
-func groupOfCode(c int) string {
+func zvwGroupOfCode(c int) string {
 	switch {
 	case c == 1 || c == 11 || c == 19:
 		return "stdnoarg"
@@ -951,28 +980,28 @@ func groupOfCode(c int) string {
 	return "fwd"
 }
 
-// shapesOf lists the frame shapes the generator can build for a code (the same table as FramesOf in the spec,
-// used only to draw inputs; TLC classifies the recorded items itself).
-func shapesOf(c int) []wIt {
-	f := func(l, b, a string) wIt { return wIt{K: "frame", Code: c, Len: l, Body: b, Aux: a} }
-	switch groupOfCode(c) {
+// zvwShapesOf lists the frame shapes the generator can build for a code (the same table as FramesOf in the spec,
+// used zvwOnly to draw inputs; TLC classifies the recorded items itself).
+func zvwShapesOf(c int) []zvwWIt {
+	f := func(l, b, a string) zvwWIt { return zvwWIt{K: "frame", Code: c, Len: l, Body: b, Aux: a} }
+	switch zvwGroupOfCode(c) {
 	case "stdnoarg":
-		return []wIt{f("1", "none", "none"), f("n", "unknown", "none")}
+		return []zvwWIt{f("1", "none", "none"), f("n", "unknown", "none")}
 	case "stdarg":
-		return []wIt{f("1", "none", "none"), f("n", "valid", "none"), f("n", "invalid", "none"), f("n", "unknown", "none")}
+		return []zvwWIt{f("1", "none", "none"), f("n", "valid", "none"), f("n", "invalid", "none"), f("n", "unknown", "none")}
 	case "ahc":
-		return []wIt{f("1", "none", "none"), f("n", "valid", "legacy"), f("n", "valid", "struct"), f("n", "invalid", "none"), f("n", "unknown", "none")}
+		return []zvwWIt{f("1", "none", "none"), f("n", "valid", "legacy"), f("n", "valid", "struct"), f("n", "invalid", "none"), f("n", "unknown", "none")}
 	case "slot0":
-		return []wIt{f("1", "none", "none"), f("n", "unknown", "none")}
+		return []zvwWIt{f("1", "none", "none"), f("n", "unknown", "none")}
 	case "slot1":
-		return []wIt{f("1", "none", "none"), f("n", "valid", "none"), f("n", "unknown", "none")}
+		return []zvwWIt{f("1", "none", "none"), f("n", "valid", "none"), f("n", "unknown", "none")}
 	case "wait":
-		return []wIt{f("1", "none", "none"), f("n", "valid", "imm"), f("n", "valid", "pend"), f("n", "unknown", "imm")}
+		return []zvwWIt{f("1", "none", "none"), f("n", "valid", "imm"), f("n", "valid", "pend"), f("n", "unknown", "imm")}
 	}
-	return []wIt{f("1", "none", "none"), f("n", "unknown", "none"), f("n", "unknown", "ufail")}
+	return []zvwWIt{f("1", "none", "none"), f("n", "unknown", "none"), f("n", "unknown", "ufail")}
 }
 
-var wTerms = []wIt{
+var zvwWTerms = []zvwWIt{
 	{K: "eof", Code: -1, Len: "none", Body: "none", Aux: "none"},
 	{K: "tprefix", Code: -1, Len: "p1", Body: "none", Aux: "none"}, {K: "tprefix", Code: -1, Len: "p2", Body: "none", Aux: "none"},
 	{K: "tprefix", Code: -1, Len: "p3", Body: "none", Aux: "none"},
@@ -980,7 +1009,7 @@ var wTerms = []wIt{
 }
 
 // mutate derives an item of unknown body class from a valid one: truncated / extended / bit-flipped body.
-func (g *wGen) mutate(ci wCItem) wCItem {
+func (g *zvwWGen) mutate(ci zvwWCItem) zvwWCItem {
 	r := g.r
 	body := append([]byte{}, ci.b[4:]...)
 	if len(body) < 2 {
@@ -1014,7 +1043,7 @@ func (g *wGen) mutate(ci wCItem) wCItem {
 				ext = append(ext, byte(3+r.Intn(250)))
 			}
 		} else {
-			ext = rndBytes(r, 1+r.Intn(40))
+			ext = zvwRndBytes(r, 1+r.Intn(40))
 		}
 		body = append(body, ext...)
 		v = "mut-ext-" + v
@@ -1023,38 +1052,38 @@ func (g *wGen) mutate(ci wCItem) wCItem {
 		body[i] ^= 1 << uint(r.Intn(8))
 		v = "mut-flip-" + v
 	}
-	it := wIt{K: "frame", Code: c, Len: "n", Body: "unknown", Aux: "none"}
+	it := zvwWIt{K: "frame", Code: c, Len: "n", Body: "unknown", Aux: "none"}
 	if c == 35 {
 		it.Aux = "imm"
 		if body[1] < 40 {
 			it.Aux = "pend"
 		}
 	}
-	if (c == 17 || c == 25) && xcryptoPanics(body) {
+	if (c == 17 || c == 25) && zvwXcryptoPanics(body) {
 		// name the variant after what makes the pinned x/crypto server panic on it
 		v = "xcrypto-panic-other"
 		base := ci.base
 		if base == 0 {
 			base = len(ci.b) - 4
 		}
-		if base <= len(body) && truncLifetime(body[base:]) {
+		if base <= len(body) && zvwTruncLifetime(body[base:]) {
 			v = "lifetime-trunc"
 		}
 	}
-	out := wCItem{It: it, Var: v, b: wFrame(body)}
+	out := zvwWCItem{It: it, Var: v, b: zvwWFrame(body)}
 	out.Hex = hex.EncodeToString(out.b)
 	return out
 }
 
 // randomStream: grammar-derived concatenation of valid, mutated and malformed items.
-func (g *wGen) randomStream(maxlen int, over bool) []wCItem {
+func (g *zvwWGen) randomStream(maxlen int, over bool) []zvwWCItem {
 	r := g.r
 	n := 1 + r.Intn(maxlen)
 	overAt := -1
 	if over {
 		overAt = r.Intn(n)
 	}
-	var items []wCItem
+	var items []zvwWCItem
 	special := []int{0, 1, 11, 13, 17, 18, 19, 22, 23, 25, 30, 31, 32, 33, 34, 35, 36, 39, 40, 255, 9, 20, 21, 26, 27}
 	for i := 0; i < n; i++ {
 		var c int
@@ -1066,11 +1095,11 @@ func (g *wGen) randomStream(maxlen int, over bool) []wCItem {
 		x := r.Intn(100)
 		switch {
 		case i == overAt:
-			items = append(items, g.concrete(wIt{K: "oversize", Code: -1, Len: "big", Body: "none", Aux: "none"}))
+			items = append(items, g.concrete(zvwWIt{K: "oversize", Code: -1, Len: "big", Body: "none", Aux: "none"}))
 		case x < 3:
-			items = append(items, g.concrete(wIt{K: "frame", Code: -1, Len: "0", Body: "none", Aux: "none"}))
+			items = append(items, g.concrete(zvwWIt{K: "frame", Code: -1, Len: "0", Body: "none", Aux: "none"}))
 		default:
-			sh := shapesOf(c)
+			sh := zvwShapesOf(c)
 			it := sh[r.Intn(len(sh))]
 			if it.Aux == "ufail" && r.Intn(4) != 0 {
 				it.Aux = "none"
@@ -1082,7 +1111,7 @@ func (g *wGen) randomStream(maxlen int, over bool) []wCItem {
 			items = append(items, ci)
 		}
 	}
-	items = append(items, g.concrete(wTerms[r.Intn(len(wTerms))]))
+	items = append(items, g.concrete(zvwWTerms[r.Intn(len(zvwWTerms))]))
 	return items
 }
 
@@ -1094,7 +1123,7 @@ func TestVerifWire(t *testing.T) {
 		t.Skip("VERIF_PLAN / VERIF_OUT not set")
 	}
 	stdlog.SetOutput(io.Discard) // x/crypto's agent server logs every refused request
-	var plan wPlan
+	var plan zvwWPlan
 	raw, err := os.ReadFile(planPath)
 	if err != nil {
 		t.Fatal(err)
@@ -1119,34 +1148,34 @@ func TestVerifWire(t *testing.T) {
 	}
 
 	// jobs
-	var jobs []wJob
+	var jobs []zvwWJob
 	for i, s := range plan.Streams {
-		jobs = append(jobs, wJob{tid: fmt.Sprintf("a%d", i), items: s, over: containsKind(s, "oversize")})
+		jobs = append(jobs, zvwWJob{tid: fmt.Sprintf("a%d", i), items: s, over: zvwContainsKind(s, "oversize")})
 	}
 	if plan.Sweep {
-		list := wIt{K: "frame", Code: 11, Len: "1", Body: "none", Aux: "none"}
+		list := zvwWIt{K: "frame", Code: 11, Len: "1", Body: "none", Aux: "none"}
 		for c := 0; c < 256; c++ {
 			for li, l := range []string{"1", "n"} {
-				it := wIt{K: "frame", Code: c, Len: l, Body: "unknown", Aux: "none"}
+				it := zvwWIt{K: "frame", Code: c, Len: l, Body: "unknown", Aux: "none"}
 				if l == "1" {
 					it.Body = "none"
 				}
 				if c == 35 && l == "n" {
 					it.Aux = "imm"
 				}
-				for k, s := range [][]wIt{{it, wTerms[0]}, {list, it, list, wTerms[0]}, {it, it, wTerms[(c+3*li)%len(wTerms)]}} {
-					jobs = append(jobs, wJob{tid: fmt.Sprintf("s%d_%s_%d", c, l, k), items: s})
+				for k, s := range [][]zvwWIt{{it, zvwWTerms[0]}, {list, it, list, zvwWTerms[0]}, {it, it, zvwWTerms[(c+3*li)%len(zvwWTerms)]}} {
+					jobs = append(jobs, zvwWJob{tid: fmt.Sprintf("s%d_%s_%d", c, l, k), items: s})
 				}
 			}
 			// a truncated body that starts with this code
-			tb := wCItem{It: wIt{K: "tbody", Code: -2, Len: "n", Body: "none", Aux: "none"}, Var: "partial", Det: fmt.Sprintf("declared 9, 3 present, code %d", c),
+			tb := zvwWCItem{It: zvwWIt{K: "tbody", Code: -2, Len: "n", Body: "none", Aux: "none"}, Var: "partial", Det: fmt.Sprintf("declared 9, 3 present, code %d", c),
 				b: []byte{0, 0, 0, 9, byte(c), 40, 0}}
 			tb.Hex = hex.EncodeToString(tb.b)
-			jobs = append(jobs, wJob{tid: fmt.Sprintf("s%d_tb", c), conc: []wCItem{tb}})
+			jobs = append(jobs, zvwWJob{tid: fmt.Sprintf("s%d_tb", c), conc: []zvwWCItem{tb}})
 		}
 	}
 	for i := 0; i < plan.Random; i++ {
-		j := wJob{tid: fmt.Sprintf("r%d", i), dirB: true}
+		j := zvwWJob{tid: fmt.Sprintf("r%d", i), dirB: true}
 		// the first draw of the stream's generator decides whether it contains an oversize item
 		j.over = verifh.NewRand("wire-"+j.tid, int64(len(jobs))).Intn(6) == 0
 		jobs = append(jobs, j)
@@ -1158,7 +1187,7 @@ func TestVerifWire(t *testing.T) {
 			items[k].b, _ = hex.DecodeString(items[k].Hex)
 			over = over || items[k].It.K == "oversize"
 		}
-		jobs = append(jobs, wJob{tid: fmt.Sprintf("p%d", i), conc: items, mode: rp.Conn, over: over})
+		jobs = append(jobs, zvwWJob{tid: fmt.Sprintf("p%d", i), conc: items, mode: rp.Conn, over: over})
 	}
 
 	var mu sync.Mutex
@@ -1166,26 +1195,26 @@ func TestVerifWire(t *testing.T) {
 	labels := map[string]bool{}
 	codesSeen := map[int]bool{}
 	var samples []interface{}
-	emit := func(j wJob, items []wCItem, mode string, res wResult) {
+	emit := func(j zvwWJob, items []zvwWCItem, mode string, res zvwWResult) {
 		info := map[string]interface{}{"items": items, "conn": mode, "ret": fmt.Sprint(res.retErr), "alloc": res.alloc}
 		if res.pan != nil {
 			info["panic"] = fmt.Sprint(res.pan)
 		}
 		kinds := []string{}
 		for _, rp := range res.replies {
-			kinds = append(kinds, respKind(rp))
+			kinds = append(kinds, zvwRespKind(rp))
 		}
 		info["replies"] = kinds
-		recs := []interface{}{wRec{Ev: "reset", Fam: "w", Tid: j.tid, Post: wSt{Pos: 1, St: "running", Out: []int{}}, Info: info}}
-		pre := wSt{Pos: 1, St: "running", Out: []int{}}
+		recs := []interface{}{zvwWRec{Ev: "reset", Fam: "w", Tid: j.tid, Post: zvwWSt{Pos: 1, St: "running", Out: []int{}}, Info: info}}
+		pre := zvwWSt{Pos: 1, St: "running", Out: []int{}}
 		mu.Lock()
 		for i := range res.steps {
 			p := pre
 			l := res.steps[i]
-			recs = append(recs, wRec{Ev: "step", Fam: "w", Tid: j.tid, Pre: &p, E: &l, Post: res.posts[i],
+			recs = append(recs, zvwWRec{Ev: "step", Fam: "w", Tid: j.tid, Pre: &p, E: &l, Post: res.posts[i],
 				Info: map[string]string{"var": items[l.I-1].Var, "det": items[l.I-1].Det}})
 			pre = res.posts[i]
-			labels[fmt.Sprintf("%s/%d/%s/%s/%s|%d|%v|%s>%s", l.It.K, groupClass(l.It.Code), l.It.Len, l.It.Body, l.It.Aux, l.Nrep, l.Rel, p.St, pre.St)] = true
+			labels[fmt.Sprintf("%s/%d/%s/%s/%s|%d|%v|%s>%s", l.It.K, zvwGroupClass(l.It.Code), l.It.Len, l.It.Body, l.It.Aux, l.Nrep, l.Rel, p.St, pre.St)] = true
 			if l.It.K == "frame" && l.It.Code >= 0 {
 				codesSeen[l.It.Code] = true
 			}
@@ -1219,17 +1248,17 @@ func TestVerifWire(t *testing.T) {
 			par = append(par, i)
 		}
 	}
-	runJob := func(env **wEnv, wid int, ji int, measure bool) {
+	runJob := func(env **zvwWEnv, wid int, ji int, measure bool) {
 		j := jobs[ji]
 		rnd := verifh.NewRand("wire-"+j.tid, int64(ji))
 		if *env == nil {
-			*env = newWEnv(base, verifh.NewRand("wire-env", int64(wid*100000+ji)), true, "")
+			*env = zvwNewWEnv(base, verifh.NewRand("wire-env", int64(wid*100000+ji)), true, "")
 		}
-		g := &wGen{env: *env, r: rnd, groups: plan.Groups, rot: map[string]int{}, small: measure}
+		g := &zvwWGen{env: *env, r: rnd, groups: plan.Groups, rot: map[string]int{}, small: measure}
 		for k := range g.groups {
 			g.rot[k] = ji + len(k)
 		}
-		var items []wCItem
+		var items []zvwWCItem
 		switch {
 		case j.conc != nil:
 			items = j.conc
@@ -1262,7 +1291,7 @@ func TestVerifWire(t *testing.T) {
 				mode = "pipe"
 			}
 		}
-		res := runStream(*env, items, mode, measure)
+		res := zvwRunStream(*env, items, mode, measure)
 		emit(j, items, mode, res)
 		(*env).n++
 		if dirty || res.pan != nil || res.hung || (*env).poisoned(items) || (*env).n >= 400 {
@@ -1276,7 +1305,7 @@ func TestVerifWire(t *testing.T) {
 		wg.Add(1)
 		go func(wid int) {
 			defer wg.Done()
-			var env *wEnv
+			var env *zvwWEnv
 			for ji := range ch {
 				runJob(&env, wid, ji, false)
 			}
@@ -1290,7 +1319,7 @@ func TestVerifWire(t *testing.T) {
 	}
 	close(ch)
 	wg.Wait()
-	var env *wEnv
+	var env *zvwWEnv
 	sort.Ints(seq)
 	for _, ji := range seq {
 		runJob(&env, 99, ji, true)
@@ -1308,12 +1337,12 @@ func TestVerifWire(t *testing.T) {
 	fmt.Printf("VERIF-SUMMARY %s\n", b)
 }
 
-func groupClass(c int) int {
-	// dispatch group as a small number (for counting distinct abstract labels only)
+func zvwGroupClass(c int) int {
+	// dispatch group as a small number (for counting distinct abstract labels zvwOnly)
 	if c < 0 {
 		return c
 	}
-	switch groupOfCode(c) {
+	switch zvwGroupOfCode(c) {
 	case "stdnoarg":
 		return 1
 	case "stdarg":
